@@ -518,6 +518,12 @@ func checkSeparatorPerGap(p *core.Program, r *core.Report, g *wlGen, rule string
 				}
 				continue
 			}
+			if c, ok := e.(*ssa.Call); ok && len(c.Call.Args) == 1 && recipeField(c.Call.Args[0], "SeparatorChar") {
+				// a constant-separator factory applied to the recipe's SeparatorChar
+				if okf, _ := constSeparatorFactory(core.StaticCallee(c)); okf {
+					continue
+				}
+			}
 			if !recipeField(e, "SeparatorFunc") {
 				okSF = false
 			}
